@@ -80,4 +80,11 @@ func (c *validatorListConstructor) appendNodeValidators(node schema.Node) {
 	}
 
 	c.list = append(c.list, v)
+
+	// A nullable object or array accepts the null literal as well.
+	if t := node.Type(); t == json.TypeArray || t == json.TypeObject {
+		if _, isAny := v.(*anyNestedStructure); !isAny && node.Constraint(constraint.NullableConstraintType) != nil {
+			c.list = append(c.list, &literalValidator{node_: node, parent_: c.parent})
+		}
+	}
 }
